@@ -45,6 +45,35 @@ def make_origin(behaviour, tier):
     def h(c, a, rec):
         c.settimeout(30)
         rec["behaviour"] = behaviour
+        if behaviour == "hold":
+            # read until end-of-stream, then keep writing: a proxy that has closed its side answers with a reset
+            while True:
+                d = c.recv(65536)
+                if not d:
+                    break
+                rec["rx"] += d
+            rec["eof"] = True
+            rec["eof_at"] = time.time()
+            rec["write_failed_at"] = None
+            for _ in range(40):
+                try:
+                    c.sendall(b"h")
+                except OSError:
+                    rec["write_failed_at"] = time.time()
+                    break
+                time.sleep(0.1)
+            return
+        if behaviour == "idlehold":
+            # read until end-of-stream, then stay silent and keep the connection for a while
+            while True:
+                d = c.recv(65536)
+                if not d:
+                    break
+                rec["rx"] += d
+            rec["eof"] = True
+            rec["eof_at"] = time.time()
+            time.sleep(5.0)
+            return
         if behaviour == "rst":
             # read a little, then abort the connection (RST)
             d = c.recv(10)
